@@ -25,7 +25,10 @@
 (***************************************************************************)
 EXTENDS Naturals, Sequences, FiniteSets, TLC
 
-CONSTANTS Types, Stateful, Emitters, ETyp, NEv, Subs, STyps, WSubs, Cap, CheckCap
+CONSTANTS Types, Stateful, Emitters, ETyp, NEv, Subs, STyps, WSubs, Cap, CheckCap,
+          LateEm,           \* emitters created while the bus is in use (bus.Emitter = withNode: bus lock, node lock)
+          DropTrustsCaller  \* design variant EXPECTED to fail: tryDropNode deletes on the strength of the check its
+                            \* caller made before releasing the node lock (sinks attached since are left on a dead node)
 
 AllSubs == Subs \cup WSubs
 None == <<>>                       \* "no retained event"; events are <<emitter, index>>
@@ -56,10 +59,12 @@ VARIABLES
   estart, edone,   \* [Emitters -> Nat] Emit calls begun / returned
   subAt,    \* [AllSubs -> [Emitters -> Nat]]  estart at the moment Subscribe returned
   firstExp, \* [Subs -> [Types -> event | None]]  retained event at the moment the sink was added
-  panic     \* BOOLEAN: a send on a closed channel happened
+  panic,    \* BOOLEAN: a send on a closed channel happened
+  orph      \* SUBSET (Subs \X Types): sinks left behind on a node object the bus no longer knows (never with the
+            \* real tryDropNode, which re-checks under both locks)
 
 vars == <<buslk, lock, sinks, last, nEm, nSinks, wreaders, wpend, wsinks, chan, chclosed, epc, spc, si,
-          async, asent, dropq, wpc, drain, got, estart, edone, subAt, firstExp, panic>>
+          async, asent, dropq, wpc, drain, got, estart, edone, subAt, firstExp, panic, orph>>
 
 Range(q) == {q[i] : i \in 1..Len(q)}
 Room(s) == ~CheckCap \/ Len(chan[s]) < Cap[s]
@@ -76,11 +81,11 @@ Init ==
   /\ lock = [t \in Types |-> "free"]
   /\ sinks = [t \in Types |-> <<>>]
   /\ last = [t \in Types |-> None]
-  /\ nEm = [t \in Types |-> Cardinality({e \in Emitters : ETyp[e] = t})]
+  /\ nEm = [t \in Types |-> Cardinality({e \in Emitters \ LateEm : ETyp[e] = t})]
   /\ nSinks = 0 /\ wreaders = {} /\ wpend = {} /\ wsinks = <<>>
   /\ chan = [s \in AllSubs |-> <<>>]
   /\ chclosed = [s \in AllSubs |-> FALSE]
-  /\ epc = [e \in Emitters |-> [k |-> "idle", n |-> 1, i |-> 0]]
+  /\ epc = [e \in Emitters |-> [k |-> IF e \in LateEm THEN "unopened" ELSE "idle", n |-> 1, i |-> 0]]
   /\ spc = [s \in Subs |-> "init"]
   /\ si = [s \in Subs |-> 1]
   /\ async = [s \in Subs |-> {}]
@@ -93,6 +98,7 @@ Init ==
   /\ subAt = [s \in AllSubs |-> [e \in Emitters |-> 0]]
   /\ firstExp = [s \in Subs |-> [t \in Types |-> None]]
   /\ panic = FALSE
+  /\ orph = {}
 
 \* the same values assigned to the next state (used by the trace spec's reset between traces)
 InitPrimed ==
@@ -100,11 +106,11 @@ InitPrimed ==
   /\ lock' = [t \in Types |-> "free"]
   /\ sinks' = [t \in Types |-> <<>>]
   /\ last' = [t \in Types |-> None]
-  /\ nEm' = [t \in Types |-> Cardinality({e \in Emitters : ETyp[e] = t})]
+  /\ nEm' = [t \in Types |-> Cardinality({e \in Emitters \ LateEm : ETyp[e] = t})]
   /\ nSinks' = 0 /\ wreaders' = {} /\ wpend' = {} /\ wsinks' = <<>>
   /\ chan' = [s \in AllSubs |-> <<>>]
   /\ chclosed' = [s \in AllSubs |-> FALSE]
-  /\ epc' = [e \in Emitters |-> [k |-> "idle", n |-> 1, i |-> 0]]
+  /\ epc' = [e \in Emitters |-> [k |-> IF e \in LateEm THEN "unopened" ELSE "idle", n |-> 1, i |-> 0]]
   /\ spc' = [s \in Subs |-> "init"]
   /\ si' = [s \in Subs |-> 1]
   /\ async' = [s \in Subs |-> {}]
@@ -117,6 +123,7 @@ InitPrimed ==
   /\ subAt' = [s \in AllSubs |-> [e \in Emitters |-> 0]]
   /\ firstExp' = [s \in Subs |-> [t \in Types |-> None]]
   /\ panic' = FALSE
+  /\ orph' = {}
 
 ----------------------------------------------------------------------------
 (* Emit *)
@@ -129,7 +136,7 @@ EAcq(e) ==
   /\ epc' = [epc EXCEPT ![e] = [k |-> "typed", n |-> @.n, i |-> 1]]
   /\ estart' = [estart EXCEPT ![e] = @ + 1]
   /\ UNCHANGED <<buslk, sinks, nEm, nSinks, wreaders, wpend, wsinks, chan, chclosed, spc, si, async, asent, dropq, wpc,
-                 drain, got, edone, subAt, firstExp, panic>>
+                 drain, got, edone, subAt, firstExp, panic, orph>>
 
 ESend(e) ==
   LET t == ETyp[e] IN
@@ -140,7 +147,7 @@ ESend(e) ==
         ELSE panic' = panic /\ chan' = [chan EXCEPT ![s] = Append(@, Ev(e, epc[e].n))]
   /\ epc' = [epc EXCEPT ![e].i = @ + 1]
   /\ UNCHANGED <<buslk, lock, sinks, last, nEm, nSinks, wreaders, wpend, wsinks, chclosed, spc, si, async, asent, dropq,
-                 wpc, drain, got, estart, edone, subAt, firstExp>>
+                 wpc, drain, got, estart, edone, subAt, firstExp, orph>>
 
 Finish(e) == /\ epc' = [epc EXCEPT ![e] = [k |-> "idle", n |-> @.n + 1, i |-> 0]]
              /\ edone' = [edone EXCEPT ![e] = @ + 1]
@@ -151,7 +158,7 @@ ERel(e) ==
   /\ lock' = [lock EXCEPT ![t] = "free"]
   /\ epc' = [epc EXCEPT ![e].k = "wcheck"]
   /\ UNCHANGED <<buslk, sinks, last, nEm, nSinks, wreaders, wpend, wsinks, chan, chclosed, spc, si, async, asent,
-                 dropq, wpc, drain, got, estart, edone, subAt, firstExp, panic>>
+                 dropq, wpc, drain, got, estart, edone, subAt, firstExp, panic, orph>>
 
 \* wildcardNode.emit: `if n.nSinks.Load() == 0 { return }` (an atomic read outside any lock)
 EWCheck(e) ==
@@ -159,7 +166,7 @@ EWCheck(e) ==
   /\ IF nSinks = 0 THEN Finish(e)
      ELSE epc' = [epc EXCEPT ![e].k = "wwait"] /\ edone' = edone
   /\ UNCHANGED <<buslk, lock, sinks, last, nEm, nSinks, wreaders, wpend, wsinks, chan, chclosed, spc, si, async,
-                 asent, dropq, wpc, drain, got, estart, subAt, firstExp, panic>>
+                 asent, dropq, wpc, drain, got, estart, subAt, firstExp, panic, orph>>
 
 \* RLock: Go's RWMutex blocks new readers while a writer is waiting or active
 EWAcq(e) ==
@@ -167,7 +174,7 @@ EWAcq(e) ==
   /\ wreaders' = wreaders \cup {e}
   /\ epc' = [epc EXCEPT ![e] = [k |-> "wild", n |-> @.n, i |-> 1]]
   /\ UNCHANGED <<buslk, lock, sinks, last, nEm, nSinks, wpend, wsinks, chan, chclosed, spc, si, async, asent, dropq, wpc,
-                 drain, got, estart, edone, subAt, firstExp, panic>>
+                 drain, got, estart, edone, subAt, firstExp, panic, orph>>
 
 EWSend(e) ==
   /\ epc[e].k = "wild" /\ epc[e].i <= Len(wsinks)
@@ -176,14 +183,32 @@ EWSend(e) ==
      /\ chan' = [chan EXCEPT ![w] = Append(@, Ev(e, epc[e].n))]
   /\ epc' = [epc EXCEPT ![e].i = @ + 1]
   /\ UNCHANGED <<buslk, lock, sinks, last, nEm, nSinks, wreaders, wpend, wsinks, chclosed, spc, si, async, asent, dropq,
-                 wpc, drain, got, estart, edone, subAt, firstExp, panic>>
+                 wpc, drain, got, estart, edone, subAt, firstExp, panic, orph>>
 
 EWRel(e) ==
   /\ epc[e].k = "wild" /\ epc[e].i > Len(wsinks)
   /\ wreaders' = wreaders \ {e}
   /\ Finish(e)
   /\ UNCHANGED <<buslk, lock, sinks, last, nEm, nSinks, wpend, wsinks, chan, chclosed, spc, si, async, asent, dropq, wpc,
-                 drain, got, estart, subAt, firstExp, panic>>
+                 drain, got, estart, subAt, firstExp, panic, orph>>
+
+\* bus.Emitter for an emitter created late: withNode takes the bus lock (creating the node if the bus does
+\* not know one) ...
+EOpenBus(e) ==
+  /\ epc[e].k = "unopened" /\ buslk = "free"
+  /\ buslk' = e
+  /\ epc' = [epc EXCEPT ![e].k = "opening"]
+  /\ UNCHANGED <<lock, sinks, last, nEm, nSinks, wreaders, wpend, wsinks, chan, chclosed, spc, si, async, asent, dropq,
+                 wpc, drain, got, estart, edone, subAt, firstExp, panic, orph>>
+\* ... locks the node while holding the bus lock, releases the bus lock, counts the emitter
+EOpenAttach(e) ==
+  LET t == ETyp[e] IN
+  /\ epc[e].k = "opening" /\ buslk = e /\ lock[t] = "free"
+  /\ buslk' = "free"
+  /\ nEm' = [nEm EXCEPT ![t] = @ + 1]
+  /\ epc' = [epc EXCEPT ![e].k = "idle"]
+  /\ UNCHANGED <<lock, sinks, last, nSinks, wreaders, wpend, wsinks, chan, chclosed, spc, si, async, asent, dropq,
+                 wpc, drain, got, estart, edone, subAt, firstExp, panic, orph>>
 
 \* emitter.Close (only when idle: closing an emitter during its own Emit is a caller error)
 EClose(e) ==
@@ -193,7 +218,7 @@ EClose(e) ==
   /\ nEm' = [nEm EXCEPT ![t] = @ - 1]
   /\ dropq' = IF nEm[t] = 1 THEN dropq \cup {t} ELSE dropq          \* e.dropper(e.typ)
   /\ UNCHANGED <<buslk, lock, sinks, last, nSinks, wreaders, wpend, wsinks, chan, chclosed, spc, si, async, asent,
-                 wpc, drain, got, estart, edone, subAt, firstExp, panic>>
+                 wpc, drain, got, estart, edone, subAt, firstExp, panic, orph>>
 
 \* basicBus.tryDropNode: under the bus lock and the node lock, drop the node (and with it the
 \* retained event) if it has neither emitters nor sinks
@@ -201,14 +226,22 @@ TryDropBus(t) ==
   /\ t \in dropq /\ buslk = "free"
   /\ buslk' = t
   /\ UNCHANGED <<lock, sinks, last, nEm, nSinks, wreaders, wpend, wsinks, chan, chclosed, epc, spc, si,
-                 async, asent, dropq, wpc, drain, got, estart, edone, subAt, firstExp, panic>>
+                 async, asent, dropq, wpc, drain, got, estart, edone, subAt, firstExp, panic, orph>>
 
 TryDrop(t) ==
-  /\ t \in dropq /\ buslk = t /\ lock[t] = "free"
+  /\ t \in dropq /\ buslk = t
+  /\ IF DropTrustsCaller
+     THEN \* (design variant) no node lock, no second look at the sinks: the node object goes, with whoever is on it
+          /\ lock[t] \notin Subs
+          /\ last' = IF nEm[t] = 0 THEN [last EXCEPT ![t] = None] ELSE last
+          /\ orph' = IF nEm[t] = 0 THEN orph \cup {<<x, t>> : x \in Range(sinks[t])} ELSE orph
+          /\ sinks' = IF nEm[t] = 0 THEN [sinks EXCEPT ![t] = <<>>] ELSE sinks
+     ELSE /\ lock[t] = "free"
+          /\ last' = IF nEm[t] = 0 /\ sinks[t] = <<>> THEN [last EXCEPT ![t] = None] ELSE last
+          /\ UNCHANGED <<sinks, orph>>
   /\ buslk' = "free"
   /\ dropq' = dropq \ {t}
-  /\ last' = IF nEm[t] = 0 /\ sinks[t] = <<>> THEN [last EXCEPT ![t] = None] ELSE last
-  /\ UNCHANGED <<lock, sinks, nEm, nSinks, wreaders, wpend, wsinks, chan, chclosed, epc, spc, si, async,
+  /\ UNCHANGED <<lock, nEm, nSinks, wreaders, wpend, wsinks, chan, chclosed, epc, spc, si, async,
                  asent, wpc, drain, got, estart, edone, subAt, firstExp, panic>>
 
 ----------------------------------------------------------------------------
@@ -219,7 +252,7 @@ SubBus(s) ==
   /\ spc[s] \in {"init", "sub"} /\ si[s] <= Len(STyps[s]) /\ buslk = "free"
   /\ buslk' = s
   /\ UNCHANGED <<lock, sinks, last, nEm, nSinks, wreaders, wpend, wsinks, chan, chclosed, epc, spc, si,
-                 async, asent, dropq, wpc, drain, got, estart, edone, subAt, firstExp, panic>>
+                 async, asent, dropq, wpc, drain, got, estart, edone, subAt, firstExp, panic, orph>>
 
 \* ... second half: lock the node WHILE HOLDING the bus lock, release the bus lock, add the sink
 SubAttachBody(s) ==
@@ -235,7 +268,7 @@ SubAttachBody(s) ==
      THEN spc' = [spc EXCEPT ![s] = "ready"] /\ subAt' = [subAt EXCEPT ![s] = estart]   \* Subscribe returns
      ELSE spc' = [spc EXCEPT ![s] = "sub"] /\ subAt' = subAt
   /\ UNCHANGED <<last, nEm, nSinks, wreaders, wpend, wsinks, chan, chclosed, epc, asent, dropq, wpc, drain,
-                 got, estart, edone, panic>>
+                 got, estart, edone, panic, orph>>
 SubAttach(s) == buslk = s /\ buslk' = "free" /\ SubAttachBody(s)
 
 \* the goroutine spawned by Subscribe: send the retained event (if any) ...
@@ -247,7 +280,7 @@ AsyncSend(s, t) ==
      ELSE panic' = panic /\ chan' = [chan EXCEPT ![s] = Append(@, last[t])]
   /\ asent' = [asent EXCEPT ![s] = @ \cup {t}]
   /\ UNCHANGED <<buslk, lock, sinks, last, nEm, nSinks, wreaders, wpend, wsinks, chclosed, epc, spc, si, async,
-                 dropq, wpc, drain, got, estart, edone, subAt, firstExp>>
+                 dropq, wpc, drain, got, estart, edone, subAt, firstExp, orph>>
 
 \* ... then unlock the node
 AsyncDone(s, t) ==
@@ -256,7 +289,7 @@ AsyncDone(s, t) ==
   /\ async' = [async EXCEPT ![s] = @ \ {t}]
   /\ asent' = [asent EXCEPT ![s] = @ \ {t}]
   /\ UNCHANGED <<buslk, sinks, last, nEm, nSinks, wreaders, wpend, wsinks, chan, chclosed, epc, spc, si, dropq,
-                 wpc, drain, got, estart, edone, subAt, firstExp, panic>>
+                 wpc, drain, got, estart, edone, subAt, firstExp, panic, orph>>
 
 CloseStart(s) ==
   /\ spc[s] = "ready"
@@ -264,7 +297,7 @@ CloseStart(s) ==
   /\ si' = [si EXCEPT ![s] = 1]
   /\ drain' = [drain EXCEPT ![s] = TRUE]
   /\ UNCHANGED <<buslk, lock, sinks, last, nEm, nSinks, wreaders, wpend, wsinks, chan, chclosed, epc, async, asent, dropq,
-                 wpc, got, estart, edone, subAt, firstExp, panic>>
+                 wpc, got, estart, edone, subAt, firstExp, panic, orph>>
 
 CloseNode(s) ==
   /\ spc[s] = "closing" /\ si[s] <= Len(STyps[s])
@@ -274,26 +307,26 @@ CloseNode(s) ==
      /\ dropq' = IF RemoveSwap(sinks[t], s) = <<>> /\ nEm[t] = 0 THEN dropq \cup {t} ELSE dropq
   /\ si' = [si EXCEPT ![s] = @ + 1]
   /\ UNCHANGED <<buslk, lock, last, nEm, nSinks, wreaders, wpend, wsinks, chan, chclosed, epc, spc, async, asent,
-                 wpc, drain, got, estart, edone, subAt, firstExp, panic>>
+                 wpc, drain, got, estart, edone, subAt, firstExp, panic, orph>>
 
 CloseChan(s) ==
   /\ spc[s] = "closing" /\ si[s] > Len(STyps[s])
   /\ chclosed' = [chclosed EXCEPT ![s] = TRUE]
   /\ spc' = [spc EXCEPT ![s] = "closed"]               \* Close returns
   /\ UNCHANGED <<buslk, lock, sinks, last, nEm, nSinks, wreaders, wpend, wsinks, chan, epc, si, async, asent, dropq, wpc,
-                 drain, got, estart, edone, subAt, firstExp, panic>>
+                 drain, got, estart, edone, subAt, firstExp, panic, orph>>
 
 Drain(s) ==
   /\ drain[s] /\ chan[s] # <<>>
   /\ chan' = [chan EXCEPT ![s] = Tail(@)]
   /\ UNCHANGED <<buslk, lock, sinks, last, nEm, nSinks, wreaders, wpend, wsinks, chclosed, epc, spc, si, async, asent, dropq,
-                 wpc, drain, got, estart, edone, subAt, firstExp, panic>>
+                 wpc, drain, got, estart, edone, subAt, firstExp, panic, orph>>
 
 DrainExit(s) ==
   /\ drain[s] /\ s \in Subs /\ chclosed[s] /\ chan[s] = <<>>
   /\ drain' = [drain EXCEPT ![s] = FALSE]
   /\ UNCHANGED <<buslk, lock, sinks, last, nEm, nSinks, wreaders, wpend, wsinks, chan, chclosed, epc, spc, si,
-                 async, asent, dropq, wpc, got, estart, edone, subAt, firstExp, panic>>
+                 async, asent, dropq, wpc, got, estart, edone, subAt, firstExp, panic, orph>>
 
 ----------------------------------------------------------------------------
 (* Wildcard subscription *)
@@ -304,7 +337,7 @@ WSubStart(w) ==
   /\ wpend' = wpend \cup {w}
   /\ wpc' = [wpc EXCEPT ![w] = "adding"]
   /\ UNCHANGED <<buslk, lock, sinks, last, nEm, wreaders, wsinks, chan, chclosed, epc, spc, si, async, asent, dropq, drain,
-                 got, estart, edone, subAt, firstExp, panic>>
+                 got, estart, edone, subAt, firstExp, panic, orph>>
 
 \* Lock acquired (no reader inside), append, Unlock; Subscribe returns
 WSubDo(w) ==
@@ -314,7 +347,7 @@ WSubDo(w) ==
   /\ wpc' = [wpc EXCEPT ![w] = "ready"]
   /\ subAt' = [subAt EXCEPT ![w] = estart]
   /\ UNCHANGED <<buslk, lock, sinks, last, nEm, nSinks, wreaders, chan, chclosed, epc, spc, si, async, asent, dropq, drain,
-                 got, estart, edone, firstExp, panic>>
+                 got, estart, edone, firstExp, panic, orph>>
 
 WCloseStart(w) ==
   /\ wpc[w] = "ready"
@@ -323,7 +356,7 @@ WCloseStart(w) ==
   /\ wpend' = wpend \cup {w}
   /\ wpc' = [wpc EXCEPT ![w] = "removing"]
   /\ UNCHANGED <<buslk, lock, sinks, last, nEm, wreaders, wsinks, chan, chclosed, epc, spc, si, async, asent, dropq, got,
-                 estart, edone, subAt, firstExp, panic>>
+                 estart, edone, subAt, firstExp, panic, orph>>
 
 WCloseDo(w) ==
   /\ wpc[w] = "removing" /\ wreaders = {}
@@ -331,7 +364,7 @@ WCloseDo(w) ==
   /\ wpend' = wpend \ {w}
   /\ wpc' = [wpc EXCEPT ![w] = "sweep"]
   /\ UNCHANGED <<buslk, lock, sinks, last, nEm, nSinks, wreaders, chan, chclosed, epc, spc, si, async, asent, dropq, drain,
-                 got, estart, edone, subAt, firstExp, panic>>
+                 got, estart, edone, subAt, firstExp, panic, orph>>
 
 \* the drain goroutine sweeps what is buffered and exits; Close returns; the channel stays open
 WCloseSweep(w) ==
@@ -340,7 +373,7 @@ WCloseSweep(w) ==
   /\ drain' = [drain EXCEPT ![w] = FALSE]
   /\ wpc' = [wpc EXCEPT ![w] = "closed"]
   /\ UNCHANGED <<buslk, lock, sinks, last, nEm, nSinks, wreaders, wpend, wsinks, chclosed, epc, spc, si, async, asent, dropq,
-                 got, estart, edone, subAt, firstExp, panic>>
+                 got, estart, edone, subAt, firstExp, panic, orph>>
 
 ----------------------------------------------------------------------------
 (* The application reader of a subscription *)
@@ -352,7 +385,7 @@ Read(s) ==
   /\ got' = [got EXCEPT ![s] = Append(@, Head(chan[s]))]
   /\ chan' = [chan EXCEPT ![s] = Tail(@)]
   /\ UNCHANGED <<buslk, lock, sinks, last, nEm, nSinks, wreaders, wpend, wsinks, chclosed, epc, spc, si, async, asent, dropq,
-                 wpc, drain, estart, edone, subAt, firstExp, panic>>
+                 wpc, drain, estart, edone, subAt, firstExp, panic, orph>>
 
 ----------------------------------------------------------------------------
 
@@ -365,7 +398,7 @@ Terminated ==
 
 Next ==
   \/ \E e \in Emitters : EAcq(e) \/ ESend(e) \/ ERel(e) \/ EWCheck(e) \/ EWAcq(e) \/ EWSend(e) \/ EWRel(e)
-                         \/ EClose(e)
+                         \/ EClose(e) \/ EOpenBus(e) \/ EOpenAttach(e)
   \/ \E s \in Subs : SubBus(s) \/ SubAttach(s) \/ CloseStart(s) \/ CloseNode(s) \/ CloseChan(s) \/ DrainExit(s)
                      \/ \E t \in Types : AsyncSend(s, t) \/ AsyncDone(s, t)
   \/ \E t \in Types : TryDropBus(t) \/ TryDrop(t)
@@ -377,6 +410,7 @@ Fairness ==
   /\ \A e \in Emitters : WF_vars(EAcq(e)) /\ WF_vars(ESend(e)) /\ WF_vars(ERel(e)) /\ WF_vars(EWCheck(e))
                          /\ WF_vars(EWAcq(e))
                          /\ WF_vars(EWSend(e)) /\ WF_vars(EWRel(e)) /\ WF_vars(EClose(e))
+                         /\ WF_vars(EOpenBus(e)) /\ WF_vars(EOpenAttach(e))
   /\ \A s \in Subs : WF_vars(SubBus(s)) /\ WF_vars(SubAttach(s)) /\ WF_vars(CloseStart(s)) /\ WF_vars(CloseNode(s))
                      /\ WF_vars(CloseChan(s)) /\ WF_vars(DrainExit(s))
                      /\ \A t \in Types : WF_vars(AsyncSend(s, t)) /\ WF_vars(AsyncDone(s, t))
@@ -432,7 +466,7 @@ ClosedDetached ==
 \* an emit never drops: when Emit has returned, the event is in the channel of (or was read by) every
 \* subscriber that is live and was attached for the whole call -- implied by ExactlyOnce.
 
-LocksSane == /\ buslk = "free" \/ buslk \in Subs \cup Types
+LocksSane == /\ buslk = "free" \/ buslk \in Subs \cup Types \cup Emitters
              /\ \A t \in Types : lock[t] = "free" \/ lock[t] \in Emitters \cup Subs
              /\ \A e \in Emitters : (epc[e].k = "typed") = (lock[ETyp[e]] = e)
              /\ \A e \in Emitters : (epc[e].k = "wild") = (e \in wreaders)
@@ -443,4 +477,7 @@ Termination == <>[]Terminated
 ReachRetained == \A s \in Subs, t \in Types : firstExp[s][t] = None
 ReachFullChan == \A s \in AllSubs : Len(chan[s]) < Cap[s] \/ Cap[s] = 0
 ReachTerminated == ~Terminated
+\* no subscriber is ever left on a node the bus has forgotten (holds for the real tryDropNode; the design
+\* variant DropTrustsCaller must violate it, and ExactlyOnce with it)
+NoOrphan == orph = {}
 =============================================================================
